@@ -187,6 +187,57 @@ Proof.
   rewrite ?str_keys_klkeys; reflexivity.
 Qed.
 
+Lemma save_step_cases (folder : path) (cl : list (pykey * counter O)) (enc : str) (fs : fsys) (k : bool -> SM bool bool) :
+  fs_wf fs ->
+  (forallb (fun nf => encodable repr encb enc (snd nf)) (save_indexed [] (str_keys cl)) = true /\
+   bindS (callS (py_save_indexed_counters repr encb calc folder cl enc)) k fs =
+   k true (fs_install folder (folder_texts repr (save_indexed [] (str_keys cl))) fs)) \/
+  (exists fs', bindS (callS (py_save_indexed_counters repr encb calc folder cl enc)) k fs = k false fs').
+Proof.
+  intro Hwf. destruct (all_encodable enc cl) eqn:E.
+  - left. rewrite <- all_encodable_files. split; [exact E|]. apply save_step; [exact Hwf|].
+    rewrite <- all_encodable_files. exact E.
+  - right. destruct (save_indexed_fails folder cl enc fs Hwf E) as [fs' Hf]. exists fs'.
+    unfold bindS, callS. rewrite Hf. reflexivity.
+Qed.
+
+(* a line some codec cannot encode: save_pcfg_data returns False (it never raises) *)
+Theorem save_pcfg_data_fails : forall (base : path) (P : pcounters) (sens : bool) (cov : num O) (n : N) (enc : str) (fs : fsys),
+  fs_wf fs -> ruleset_encodable enc (save_pcfg_data O P sens cov n) = false ->
+  exists fs', py_save_pcfg_data repr encb calc base (parser_of O P (with_markov cov n (of_counts (sc_base (pc_structs P))))) enc sens fs =
+              (Ok false, fs').
+Proof.
+  intros base P sens cov n enc fs Hwf He.
+  unfold py_save_pcfg_data. cbv zeta. unfold run_fnS.
+  unfold parser_of. cbn [po_count_keyboard po_count_emails po_count_email_providers po_count_website_urls
+    po_count_website_hosts po_count_website_prefixes po_count_years po_count_context_sensitive po_count_alpha
+    po_count_alpha_masks po_count_digits po_count_other po_count_base_structures po_count_raw_base_structures po_count_prince].
+  unfold ruleset_encodable, save_pcfg_data in He. cbn [forallb fst snd] in He.
+  unfold enc_of in He.
+  repeat match goal with
+         | H : context [str_eqb (str_of_string ?a) (str_of_string ?b)] |- _ =>
+             let v := eval vm_compute in (str_eqb (str_of_string a) (str_of_string b)) in
+             change (str_eqb (str_of_string a) (str_of_string b)) with v in H
+         end.
+  cbn [orb] in He. cbv iota in He.
+  destruct sens; cbv iota in He;
+  repeat (first
+    [ rewrite (bindS_NormS)
+    | match goal with
+      | |- context [bindS (callS (py_save_indexed_counters repr encb calc ?f ?cl ?e)) ?k ?fs0] =>
+          let Ht := fresh "Ht" in let Hs := fresh "Hs" in let fs' := fresh "fs" in
+          destruct (save_step_cases f cl e fs0 k ltac:(repeat apply fs_install_wf; exact Hwf)) as [[Ht Hs]|[fs' Hs]];
+          rewrite Hs; cbn [negb]; [rewrite ?str_keys_klkeys in Ht | eexists; reflexivity]
+      end ]);
+  exfalso;
+  (match type of He with ?x = false => assert (Hall : x = true) end;
+  [ repeat match goal with
+           | |- (forallb _ _ && _) = true =>
+               apply andb_true_iff; split; [match goal with Ht : forallb _ _ = true |- _ => exact Ht end|]
+           end; reflexivity
+  | rewrite Hall in He; discriminate ]).
+Qed.
+
 End SaveEq.
 
 (* ---------------------------------------------------------------- with the translated calculate_probabilities *)
@@ -225,6 +276,20 @@ Theorem source_save_pcfg_data_eq : forall (base : path) (P : pcounters) (sens : 
   py_save_pcfg_data repr encb src_calc base (parser_of O P (with_markov cov n (of_counts (sc_base (pc_structs P))))) enc sens fs =
   (Ok true, install_all repr base (save_pcfg_data O P sens cov n) fs).
 Proof. intros. apply (save_pcfg_data_eq repr encb src_calc src_calc_eq); assumption. Qed.
+
+(* both cases: every line encodable -> True and the model's ruleset on disk; else False, never an exception *)
+Theorem source_save_pcfg_data_cases : forall (base : path) (P : pcounters) (sens : bool) (cov : num O) (n : N) (enc : str) (fs : fsys),
+  fs_wf fs ->
+  let pp := parser_of O P (with_markov cov n (of_counts (sc_base (pc_structs P)))) in
+  (ruleset_encodable repr encb enc (save_pcfg_data O P sens cov n) = true ->
+   py_save_pcfg_data repr encb src_calc base pp enc sens fs = (Ok true, install_all repr base (save_pcfg_data O P sens cov n) fs)) /\
+  (ruleset_encodable repr encb enc (save_pcfg_data O P sens cov n) = false ->
+   exists fs', py_save_pcfg_data repr encb src_calc base pp enc sens fs = (Ok false, fs')).
+Proof.
+  intros base P sens cov n enc fs Hwf. cbv zeta. split; intro He.
+  - apply source_save_pcfg_data_eq; assumption.
+  - apply (save_pcfg_data_fails repr encb src_calc src_calc_eq); assumption.
+Qed.
 
 (* file names: one file per key, named str(key).txt, distinct for distinct keys; the folder holds
    nothing else afterwards, whatever it held before *)
